@@ -10,6 +10,7 @@ import (
 	"verifharness/engine"
 	"verifharness/gen"
 	"verifharness/model"
+	"verifharness/simdisk"
 )
 
 // C11: space conservation on bounded files without overflow transactions. At every quiescent point
@@ -155,7 +156,7 @@ func init() {
 	register("c11", func(args []string) int {
 		f := parseFlags("c11", args)
 		rep := newReport("C11", f)
-		rep.Rule = "long alloc/free/overwrite cycle histories (no overflow transactions) on bounded configurations (64-256 pages, meta area 0/1/4/8, prealloc); plus short abort-heavy histories (50% of the transactions end in Rollback/Close); after every commit / rollback / close / reopen: allocatable + live + meta area + 2 == max pages, file extent <= max size, Observer FileStats == (live, meta area, meta in use); every 7th point and at the end a capacity probe (allocate until failure in a rolled-back transaction) must equal the allocatable count. directed: meta-area growth served by a contiguous run of the data free list; K1: allocator scripts (state incl. the per-transaction counters after every operation) vs. the Coq model. Non-trivial: distinct (config, op statistics)."
+		rep.Rule = "long alloc/free/overwrite cycle histories (no overflow transactions) on bounded configurations (64-256 pages, meta area 0/1/4/8, prealloc); plus short abort-heavy histories (50% of the transactions end in Rollback/Close); after every commit / rollback / close / reopen: allocatable + live + meta area + 2 == max pages, file extent <= max size, Observer FileStats == (live, meta area, meta in use); every 7th point and at the end a capacity probe (allocate until failure in a rolled-back transaction) must equal the allocatable count. directed: meta-area growth served by a contiguous run of the data free list; the configuration space at creation (explicit / default page size x max size x initial meta area: refused, or within the limit and conserving); K1: allocator scripts (state incl. the per-transaction counters after every operation) vs. the Coq model. Non-trivial: distinct (config, op statistics)."
 		if f.replay != "" {
 			rp, err := loadHistReplay(f.replay)
 			if err != nil {
@@ -235,6 +236,45 @@ func init() {
 			ops = append(ops, engine.Op{Kind: "reopen"}, engine.Op{Kind: "verify"})
 			rep.count("part3:meta-growth-from-a-contiguous-free-run", 1)
 			c11History(rep, cfg, ops, int64(3000+i))
+		}
+		// part 4: the configuration space at creation: page size (explicit / default) x max size x initial meta area -
+		// a configuration is refused, or the new file lies within its limit and the conservation identity holds
+		for _, ps := range []uint32{0, 1024, 4096} {
+			eff := uint64(ps)
+			if eff == 0 {
+				eff = uint64(os.Getpagesize())
+			}
+			for _, mp := range []uint64{16, 20, 64, 66, 100} {
+				for _, meta := range []uint32{0, 1, 4, 14, 18, 62, 64, 98, 200} {
+					d := simdisk.New("cfg")
+					fl, err := txfile.VerifOpen(d, txfile.Options{PageSize: ps, MaxSize: mp * eff, InitMetaArea: meta})
+					rep.Evaluations++
+					rep.count(fmt.Sprintf("part4:create:ok=%v", err == nil), 1)
+					if err != nil {
+						continue
+					}
+					sn := txfile.VerifSnapshot(fl)
+					end := sn.DataEnd
+					if sn.MetaEnd > end {
+						end = sn.MetaEnd
+					}
+					avail := uint64(sn.DataAvail)
+					if sn.DataEnd < uint64(sn.MaxPages) {
+						avail += uint64(sn.MaxPages) - sn.DataEnd
+					}
+					switch {
+					case end > uint64(sn.MaxPages) || d.MaxExtent > int64(sn.MaxSize):
+						rep.violate(Violation{Kind: "oracle", Sig: "create/beyond-max-size",
+							Detail: fmt.Sprintf("Options{PageSize: %d, MaxSize: %d pages, InitMetaArea: %d} is accepted and creates a file whose end markers (data %d, meta %d) lie beyond its %d pages", ps, mp, meta, sn.DataEnd, sn.MetaEnd, sn.MaxPages),
+							Replay: map[string]interface{}{"page_size": ps, "max_pages": mp, "init_meta_area": meta}})
+					case avail+uint64(sn.MetaTotal)+2 != uint64(sn.MaxPages):
+						rep.violate(Violation{Kind: "oracle", Sig: "create/conservation",
+							Detail: fmt.Sprintf("Options{PageSize: %d, MaxSize: %d pages, InitMetaArea: %d}: allocatable %d + meta area %d + 2 != %d", ps, mp, meta, avail, sn.MetaTotal, sn.MaxPages),
+							Replay: map[string]interface{}{"page_size": ps, "max_pages": mp, "init_meta_area": meta}})
+					}
+					fl.Close()
+				}
+			}
 		}
 		// K1: the per-transaction counters (data / meta / overflow pages allocated and freed, pages moved to the meta
 		// area) are part of the allocator state compared with the Coq model after every operation
